@@ -10,6 +10,7 @@ import (
 	"os"
 	"runtime"
 	"sort"
+	"strings"
 	"sync"
 	"testing"
 
@@ -436,17 +437,26 @@ func chainRun(t *testing.T, run *ev.Run, idx, nblocks int) {
 		}
 		return m
 	}
+	latestM := func(c *config.Blockchain) { c.KeepOnlyLatestState = true }
+	gcM := func(c *config.Blockchain) { c.RemoveUntraceableBlocks = true; c.GarbageCollectionPeriod = 4 }
+	gcLatestM := func(c *config.Blockchain) {
+		c.RemoveUntraceableBlocks = true
+		c.KeepOnlyLatestState = true
+		c.GarbageCollectionPeriod = 3
+	}
 	modes := []struct {
-		name string
-		cfg  func(*config.Blockchain)
+		name    string
+		cfg     func(*config.Blockchain)
+		backend string
 	}{
-		{"latest", func(c *config.Blockchain) { c.KeepOnlyLatestState = true }},
-		{"gc", func(c *config.Blockchain) { c.RemoveUntraceableBlocks = true; c.GarbageCollectionPeriod = 4 }},
-		{"gc+latest", func(c *config.Blockchain) {
-			c.RemoveUntraceableBlocks = true
-			c.KeepOnlyLatestState = true
-			c.GarbageCollectionPeriod = 3
-		}},
+		{"latest", latestM, "mem"},
+		{"gc", gcM, "mem"},
+		{"gc+latest", gcLatestM, "mem"},
+		// the same modes on the persistent backends (their iterators, key / value
+		// memory and transactions differ from the in-memory store's)
+		{"gc@level", func(c *config.Blockchain) { c.RemoveUntraceableBlocks = true; c.GarbageCollectionPeriod = uint32(2 + idx%3) }, "level"},
+		{"gc+latest@bolt", gcLatestM, "bolt"},
+		{[]string{"latest@level", "gc@bolt", "gc+latest@level"}[idx%3], []func(*config.Blockchain){latestM, gcM, gcLatestM}[idx%3], []string{"level", "bolt", "level"}[idx%3]},
 	}
 	var wg sync.WaitGroup
 	for mi, m := range modes {
@@ -459,7 +469,7 @@ func chainRun(t *testing.T, run *ev.Run, idx, nblocks int) {
 			defer wg.Done()
 			r := rng.New(uint64(idx)*10 + uint64(mi) + 21000)
 			cfg := func(c *config.Blockchain) { h.Proto(c); m.cfg(c) }
-			rep, err := vchain.OpenReplica(t, vchain.ReplicaCfg{Name: m.name, Cfg: cfg})
+			rep, err := vchain.OpenReplica(t, vchain.ReplicaCfg{Name: strings.ReplaceAll(m.name, "@", "-"), Cfg: cfg, Backend: m.backend})
 			if err != nil {
 				t.Error(err)
 				return
